@@ -214,7 +214,9 @@ class C14(univ.UnivCheck):
                         p.tags = v
                     else:
                         p.fields = v
-                return [viol("rejected", sig0 + "|not-rejected", observed=repr(p), expected="ValueError/TypeError", kind="input") | {"input": case}]
+                # (the default time of a Point is the real clock: left out so that two replays observe the same thing)
+                seen = repr((p.time if slot == "time" else "<time>", p.measurement, p.tags, p.fields))
+                return [viol("rejected", sig0 + "|not-rejected", observed=seen, expected="ValueError/TypeError", kind="input") | {"input": case}]
             except (ValueError, TypeError):
                 return []
             except Exception as e:  # noqa
